@@ -272,3 +272,13 @@ package executor
 //@     set mark = allocmark()
 //@   call (*ProcessorOptions).UnmarshalBinary
 //@     requires [options_object_allocated_for_this_input] objid(recv) > mark
+
+// A pushed-down LIMIT is planned as a pair (limit, offset) of its own - the store-side operator of `LIMIT n OFFSET k`
+// is planned with (n+k, 0), the final one on the sql node with (n, k). The decoder rebuilds each limit operator from the
+// numbers SHIPPED WITH THAT NODE, never from the query options (which hold the statement's n and k: the offset would be
+// applied on the store and again on the sql node).
+//@ prop C12
+//@ func UnmarshalBinaryNode
+//@   requires pb != nil
+//@   call NewLogicalLimit
+//@     requires [limit_operator_rebuilt_from_the_shipped_numbers] arg2.Limit == pb.Limit && arg2.Offset == pb.Offset && arg2.LimitType == pb.LimitType
